@@ -483,7 +483,7 @@ def gen_layout(tier, rnd):
 
 # ------------------------------------------------------------------ totality (C03 / C17)
 
-HOSTILE = ['(', ')', '!', ',', '-', '+', "'", '"', '\\', '%', ' ', '\t', '\n', '0', '7', '9', 'a', 'k', 'é', '\x7f']
+HOSTILE = ['(', ')', '!', ',', '-', '+', "'", '"', '\\', '%', ' ', '\t', '\n', '0', '7', '9', 'a', 'k', 'é', '\x7f', '\x01', '\x1b', '\x85', '\u2028', '\U0001f600']
 ARG_ALPHABET = ['0', '7', '9', '+', '-', '/', ',', 'u', 'r', '=', 'k', 'f', '%', '\\', "'", '"', ')', 'x', 'é', '@']
 
 
@@ -544,5 +544,19 @@ def gen_totality(tier, rnd):
     for s in ['-maxdepth 3', '-mindepth 3', '-perm 77777', '-perm 77777777777', "-printf '\\777777'", 'nope', '-size 18446744073709551615w',
               '-perm 0777x', '-nouser', '-fprint', '-threads', "-name 'a\"b'", '-name a\\', "-printf '\\c'", "-printf '~a'", '-print-file-fid -fprint x']:
         add(s)
-    return lines, {'rule': 'grammar-aware valid corpus (%d inputs), every prefix and random single-character substitutions/insertions/deletions from a hostile alphabet, exhaustive argument strings of length <=%d over a 20-symbol alphabet after each argument-taking keyword, numeric boundaries with every unit, nesting ladders to depth 64; parse + compile + render; debug and release; non-trivial = at least two words'
+    # every Unicode class (1..4 UTF-8 bytes; C0, DEL and C1 controls; separators; noncharacters) at every string site
+    classes = ['\x01', '\x08', '\x0b', '\x1f', '\x7f', '\x80', '\x85', '\x9f', '\xa0', 'é', '\u0378', '\u2028', '\ufeff', '\uffff', '\U0001f600', '\U0010ffff']
+    sites = ['-name %s', '-iname %s', '-path %s', '-ipath %s', '-pool %s', '-xattr %s', '-xattr-match %s v', '-xattr-match k %s', '-fprint %s', '-fprint0 %s',
+             '-printf %s', '-fprintf out %s', '-fprintf %s x', '-printf %%A%s', '-printf %%{xattr:%s}', '-user %s', '-regex %s']
+    for site in sites:
+        for c in classes:
+            for shape in [c, 'a' + c, c + 'b', 'a' + c + 'b', c + c]:
+                add(site % shape)
+    for o in range(0o200, 0o240):
+        add("-printf '\\%03o'" % o)
+        add("-printf 'a\\%03ob'" % o)
+    for c in classes + ['"', '\\', '~', '\n']:
+        for shape in ['/dev/' + c, c, '/dev/a' + c + 'b']:
+            lines.append('C %s %s' % (hx('-name x'), hx(shape)))
+    return lines, {'rule': 'grammar-aware valid corpus (%d inputs), every prefix and random single-character substitutions/insertions/deletions from a hostile alphabet, exhaustive argument strings of length <=%d over a 20-symbol alphabet after each argument-taking keyword, numeric boundaries with every unit, nesting ladders to depth 64, every string site x 16 Unicode classes (C0/DEL/C1 controls, 1..4-byte characters, separators, noncharacters) x 5 positions, octal escapes 0200..0237, hostile device paths; parse + compile + render; debug and release; non-trivial = at least two words'
                    % (len(corpus), maxarg), 'streams': {'totality': len(lines)}}
